@@ -16,6 +16,7 @@ CONSTANTS
   Export = %s
   DevFirstTokenNotWhole = %s
   DevLastTokenIsFirst = %s
+  DevUrlStarIsWildcard = FALSE
 INVARIANTS Refines TokensSafe Exported
 CHECK_DEADLOCK FALSE
 """
